@@ -556,6 +556,41 @@ theorem loop_delay_respected (env : Env) (l : Limits) (now : Int) (r : Rec) (scr
   rw [← loop_is_run]
   exact delay_respected env l _ now r
 
+/-! ## Timers: the clause is FALSE over a timer's life (finding C11-F1)
+
+  Full statement, as the property (and docs/timers.rst: "For PermanentError, the timer stops forever
+  and is not retried") has it, for the life of one timer:
+    `∀ a b ∈ timerRun …, a before b → a.recAfter.failure = true → False`  and
+    `l.retries = some N → (invoked attempts of timerRun …).length ≤ N`.
+  Proved instead: the bounds hold per retry series (`loop_retries_bound`, `loop_timeout_bound`,
+  `loop_delay_respected`, `final_is_last` — one series of `_timer` is `loopRun`), and the negation of
+  the life-long statement by the witnesses below, which `run()` replays on the real `_timer`. -/
+
+def invokedOf (as : List Attempt) : List Attempt := as.filter (fun a => a.out.invoked)
+
+/-- A timer (interval 10) whose function raises `PermanentError` is called again 10 ticks later,
+    with `retry = 0`, from a fresh record — the permanent failure did not end it. -/
+theorem timer_permanent_restarts_witness :
+    ((timerRun ⟨.temporary, 60⟩ ⟨none, none, none, none⟩ 10 false 0 (fromScratch 0)
+        [(.permanent, 0), (.permanent, 0)]).map
+      (fun a => (a.time, a.retry, a.out.invoked, a.out.final, a.recAfter.failure))) =
+      [(0, 0, true, true, true), (10, 0, true, true, true)] := by decide
+
+/-- With `retries = 1` a timer's function is invoked 3 times in 3 intervals: "at most N times"
+    is false over the timer's life (it is true per series). -/
+theorem timer_retries_exceeded_witness :
+    ∃ (l : Limits) (script : List (Raised × Nat)), l.retries = some 1 ∧
+      (invokedOf (timerRun ⟨.temporary, 60⟩ l 10 false 0 (fromScratch 0) script)).length = 3 :=
+  ⟨⟨none, none, some 1, none⟩, [(.arbitrary, 0), (.arbitrary, 0), (.arbitrary, 0)], rfl, by decide⟩
+
+/-- What does hold for the whole life: a timer's series are `loopRun`s — as long as the record is
+    not finished, the timer's next step is the in-memory loop's next step. -/
+theorem timer_series_is_loop (env : Env) (l : Limits) (interval : Nat) (sharp : Bool) (now : Int) (r : Rec)
+    (x : Raised) (dur : Nat) (rest : List (Raised × Nat)) (hf : r.finished = false) :
+    (timerRun env l interval sharp (wakeTime r now) r ((x, dur) :: rest)).head? =
+      (loopRun env l now r ((x, dur) :: rest)).head? := by
+  simp [timerRun, loopRun, hf]
+
 /-! ## Non-vacuity: the hypotheses are met, the branches are taken -/
 
 def envD : Env := ⟨.temporary, 61440⟩
